@@ -297,7 +297,7 @@ def main(tier):
     rep.coverage.update({"input_cases": n, "sizes": sz, "kinds": KINDS, "algorithms": algos})
     run_spec(rep, C01Spec(tier), "witness-histories", time_cap=120 if tier == "quick" else 3000)
     from ._t import line_level_part
-    line_level_part(rep, LINE_LEVEL)
+    line_level_part(rep, LINE_LEVEL, two=("retrieve(p1)||retrieve(p2) from p1A,p2B",))
     rep.assumptions += ["line level (engine L): a retrieve_object overlapping a call on another pid, one pre-emption at "
                         "every source line of the package; the reader must get exactly the stored bytes",
                         "byte values follow a position-dependent pattern; digest correctness for arbitrary bytes is hashlib's",
